@@ -309,6 +309,12 @@ func Origins(v ssa.Value) []ssa.Value {
 				}
 			}
 			out = append(out, v)
+		case *ssa.Parameter:
+			if a := BoundArg(x); a != nil {
+				walk(a)
+				return
+			}
+			out = append(out, v)
 		case *ssa.FreeVar:
 			if b := FreeVarBinding(x); b != nil {
 				if _, isCell := b.(*ssa.Alloc); !isCell {
@@ -587,4 +593,67 @@ func reachingStores(load *ssa.UnOp, cell *ssa.Alloc) (vals []ssa.Value, complete
 		}
 	}
 	return
+}
+
+// BoundArg returns the argument bound to parameter p when p belongs to a
+// function literal that is called (or go'ed / deferred) at exactly one site in
+// its parent and is not used in any other way; nil otherwise.
+func BoundArg(p *ssa.Parameter) ssa.Value {
+	fn := p.Parent()
+	parent := fn.Parent()
+	if parent == nil {
+		return nil
+	}
+	idx := -1
+	for i, q := range fn.Params {
+		if q == p {
+			idx = i
+		}
+	}
+	if idx < 0 {
+		return nil
+	}
+	var fv ssa.Value = fn
+	if sites := ClosureSites(fn); len(sites) == 1 {
+		fv = sites[0]
+	} else if len(sites) > 1 {
+		return nil
+	}
+	refs := fv.Referrers()
+	var site ssa.CallInstruction
+	if refs != nil {
+		for _, r := range *refs {
+			if _, isDbg := r.(*ssa.DebugRef); isDbg {
+				continue
+			}
+			c, ok := r.(ssa.CallInstruction)
+			if !ok || c.Common().Value != fv || site != nil {
+				return nil
+			}
+			site = c
+		}
+	} else {
+		// plain function value without free variables: scan the parent
+		n := 0
+		AllInstrs(parent, func(in ssa.Instruction) {
+			if c, ok := in.(ssa.CallInstruction); ok && c.Common().Value == fv {
+				site = c
+				n++
+			}
+			for _, op := range in.Operands(nil) {
+				if *op == fv {
+					if c, ok := in.(ssa.CallInstruction); !ok || c.Common().Value != fv {
+						n += 2
+					}
+				}
+			}
+		})
+		if n != 1 {
+			return nil
+		}
+	}
+	if site == nil || idx >= len(site.Common().Args) {
+		return nil
+	}
+	return site.Common().Args[idx]
 }
